@@ -2,7 +2,7 @@
 from nk import report
 from nk.facts import kids, strip, const, callee
 from nk.report import Ob, RuleResult, DISCHARGED, VIOLATED
-from rules import passes
+from rules import passes, passsize
 from . import common
 
 EXPLANATION = (
@@ -53,5 +53,6 @@ def symlock(prog):
 def run(tier, t0):
     prog = common.program()
     cg = common.callgraph()
-    results = [passes.interpass(prog), passes.addsym(prog), passes.rpass(prog, cg), symlock(prog)]
+    results = [passes.interpass(prog), passes.addsym(prog), passes.rpass(prog, cg), symlock(prog),
+               passsize.memo_gov(prog), passsize.memo_pair(prog)]
     return report.finish('C02', tier, results, EXPLANATION, [], common.TRUSTED, t0)
